@@ -99,7 +99,11 @@ func gItem(o Op) string {
 		return "IOp (" + o.Kind + " " + kit.GStrs(o.IDs) + ")"
 	case "Obs":
 		v, a := gView(o.Obs)
-		return "IObs " + kit.GBool(o.Tag == "final") + " " + v + " " + a // final = premises hold
+		kind := map[string]string{"each-delivered-once": "1%nat", "final": "2%nat"}[o.Tag]
+		if kind == "" {
+			kind = "0%nat"
+		}
+		return "IObs " + kind + " " + kit.GBool(o.Belief) + " " + v + " " + a + " " + gNPS(o.NSets, o.NMap)
 	case "Panic":
 		return "IPanic"
 	}
@@ -125,4 +129,18 @@ func gCase(ops []Op, roundStart, roundEnd int) string {
 		items = append(items, gItem(ops[i]))
 	}
 	return "[" + strings.Join(items, ";\n   ") + "]"
+}
+
+func gNPS(sets map[string][3][]string, mp map[string]string) string {
+	var ss, ms []string
+	for _, np := range kit.SortedKeys(sets) {
+		if len(sets[np][2]) != 0 {
+			panic("PendingDisruption is never written by the harness")
+		}
+		ss = append(ss, fmt.Sprintf("(%s, (%s, %s))", kit.GStr(np), kit.GStrs(sets[np][0]), kit.GStrs(sets[np][1])))
+	}
+	for _, k := range kit.SortedKeys(mp) {
+		ms = append(ms, "("+kit.GStr(k)+", "+kit.GStr(mp[k])+")")
+	}
+	return "(mkNPS " + kit.GList(ss) + " " + kit.GList(ms) + ")"
 }
